@@ -333,6 +333,11 @@ def x_stage_impl(ctx, quick):
             k = arr_canon(r["desc"], c["coerce"])
             by_canon.setdefault(k, set()).add(r["md5"])
             by_md5.setdefault(r["md5"], set()).add(k)
+    # coerce_mmap: a memmap hashes like the ndarray with the same buffer iff the flag is set
+    tw = {c.get("twin"): r.get("md5") for c, r in zip(cases, res) if c.get("twin")}
+    if tw.get("mm") != tw.get("nd") or tw.get("mm0") == tw.get("nd0") or tw.get("nd") != tw.get("nd0"):
+        viol.append(("coerce_mmap: hash(memmap, coerce)=%s hash(ndarray, coerce)=%s hash(memmap)=%s hash(ndarray)=%s"
+                     % (tw.get("mm"), tw.get("nd"), tw.get("mm0"), tw.get("nd0")), {"kind": "x", "case": "memmap/ndarray twins"}))
     for k, ds in by_canon.items():
         if len(ds) > 1:
             viol.append(("equal arrays, different digests %s" % sorted(ds), {"kind": "x-arr", "canon": list(map(str, k))[:4]}))
